@@ -400,7 +400,7 @@ def run(tier: str, seed: int) -> Result:
     sweep["client_subscriber_runs"] = client_subscriber_sweep(res)
     total = Stats()
     cfgs = []
-    for s in ("connecting", "opened", "hello_sent", "connected", "req_pending", "disc_pending", "pong_due"):
+    for s in ("connecting", "opened", "hello_sent", "connected", "req_pending", "disc_pending", "pong_due", "disc_gave_up"):
         cfgs.append((False, s, 3 if tier == "quick" else 4, 1 if tier == "quick" else 2))
     for s in ("hswait", "hello_sent", "connected"):
         cfgs.append((True, s, 2 if tier == "quick" else 3, 1 if tier == "quick" else 2))
@@ -410,7 +410,7 @@ def run(tier: str, seed: int) -> Result:
         for af in ("sub:ValueError", "stop", "sub:StopIteration+stop"):
             cfgs.append((False, s, 2 if tier == "quick" else 3, 1, af))
     cfgs.append((True, "req_pending", 2, 1, "stop"))
-    budget = 70.0 if tier == "quick" else 1500.0
+    budget = 240.0 if tier == "quick" else 2400.0
     t_end = time.monotonic() + budget
     per_cfg = []
     for i, cfg in enumerate(cfgs):
